@@ -180,3 +180,26 @@ Theorem elected_estimate_came_from_quorum : forall (ops : list qm_op) (m0 : qmsg
     verify_gas_estimates sn (q_estimates m0 ++ pre) = Elected (q_elected (fold_left qm_step ops m0)).
 Proof. exact elected_came_from_quorum. Qed.
 Print Assumptions elected_estimate_came_from_quorum.
+
+
+(* --- source translation tie (GenFn) --- *)
+(* The Go function bodies named below are re-translated from the source on every check
+   (harness/cmd/extract/gotrans*.go -> GenFn/*.v, semantics of the Go subset: Trans/GoSem.v).
+   Each theorem states that the hand-written model function equals the translated body for all
+   inputs (hypotheses are Go type ranges / the 256-bit range of math.Int only); the proofs are in
+   Trans/C04Fn.v.  A readable change of the Go body breaks the proof, an unreadable one breaks the
+   translator.  See design/GoTrans.md. *)
+From Paloma Require Trans.GoSem Trans.GoSemFacts Trans.C04Fn.
+
+Theorem consensus_model_is_translation_of_source :
+  forall (sn : Quorum.snapshot) (t : option Z),
+  (forall s, t = Some s -> GoSemFacts.fits256 (s * 3) /\ GoSemFacts.fits256 (Quorum.sn_total sn * 2)) ->
+  GenFn.Consensus.consensus t (Quorum.sn_total sn) = GoSem.Val (Quorum.consensus sn t).
+Proof. exact Trans.C04Fn.consensus_eq. Qed.
+Print Assumptions consensus_model_is_translation_of_source.
+
+Theorem median64_model_is_translation_of_source :
+  forall s : list Z, GoSem.go_len s < GoSem.two63 ->
+  GenFn.Median.median s = GoSem.Val (Median.median64 s).
+Proof. exact Trans.C04Fn.median_eq. Qed.
+Print Assumptions median64_model_is_translation_of_source.
